@@ -230,7 +230,7 @@ func convertCSVtoCSM(tbk io.TimeBucketKey, cvm *CSVMetadata, csvDataChunk [][]st
 	epochCol, nanosCol := readTimeColumns(csvDataChunk, cvm.ColumnIndex, cvm.Config)
 	if epochCol == nil {
 		log.Error("Error building time columns from csv data")
-		return
+		return nil, fmt.Errorf("failed to build the time columns from the csv data (unparsable timestamp or incomplete time mapping)")
 	}
 
 	csmInit := io.NewColumnSeriesMap()
